@@ -308,8 +308,8 @@ func gen(seed uint64, tier string) {
 	// goroutines (each on its own deep copy of the operands) while others run the four operations on
 	// unrelated far-away operands; every answer must be the sequential one, which the oracle judges.
 	ncc := npairs / 5
-	if ncc > 600 {
-		ncc = 600
+	if ncc > 300 {
+		ncc = 300
 	}
 	for h := 0; h < ncc; h++ {
 		ka, kb := kinds[h%3], kinds[(h/3)%3]
